@@ -383,6 +383,15 @@ impl Check for C19 {
                             if !good || op.touches_after != op.touches_before {
                                 out.violations.push(viol("C19", format!("C19/dead-handle/{:?}", ctx), format!("{:?} with {:?} on a dead handle returned {:?} and performed {} transport calls", ctx, pc, op.outcome, op.touches_after - op.touches_before)));
                             }
+                            // ... and the session is as it was: nothing retained, no slot, no handle
+                            if let (Some(pb), Some(pa)) = (pb, pa) {
+                                out.count("no_trace_comparisons", 1);
+                                if matches!(op.outcome, Outcome::Err(_)) {
+                                    if let Some(d) = no_trace(op, (pb, pa), false) {
+                                        out.violations.push(viol("C19", format!("C19/dead-handle/{:?}/left-trace", ctx), format!("{:?} with {:?} on a dead handle returned {:?} but left a trace: {}", ctx, pc, op.outcome, d)));
+                                    }
+                                }
+                            }
                             return;
                         }
                         match v {
